@@ -193,7 +193,12 @@ resp0_ctx_send(void *arg, nni_aio *aio)
 
 	if (!p->busy) {
 		p->busy = true;
-		len     = nni_msg_len(msg);
+		if (p->id == s->ctx.pipe_id) {
+			// another context occupies the pipe on which the
+			// socket itself would send
+			nni_pollable_clear(&s->writable);
+		}
+		len = nni_msg_len(msg);
 		nni_aio_set_msg(&p->aio_send, msg);
 		nni_pipe_send(p->npipe, &p->aio_send);
 		nni_mtx_unlock(&s->mtx);
@@ -462,8 +467,12 @@ resp0_ctx_recv(void *arg, nni_aio *aio)
 	memcpy(ctx->btrace, nni_msg_header(msg), len);
 	ctx->btrace_len = len;
 	ctx->pipe_id    = p->id;
-	if ((ctx == &s->ctx) && (!p->busy)) {
-		nni_pollable_raise(&s->writable);
+	if (ctx == &s->ctx) {
+		if (!p->busy) {
+			nni_pollable_raise(&s->writable);
+		} else {
+			nni_pollable_clear(&s->writable);
+		}
 	}
 	nni_mtx_unlock(&s->mtx);
 
@@ -553,8 +562,12 @@ resp0_pipe_recv_cb(void *arg)
 	nni_msg_header_clear(msg);
 	ctx->pipe_id = p->id;
 
-	if ((ctx == &s->ctx) && (!p->busy)) {
-		nni_pollable_raise(&s->writable);
+	if (ctx == &s->ctx) {
+		if (!p->busy) {
+			nni_pollable_raise(&s->writable);
+		} else {
+			nni_pollable_clear(&s->writable);
+		}
 	}
 	nni_mtx_unlock(&s->mtx);
 
